@@ -67,7 +67,7 @@ class Adapter(EnvAdapter):
             dict(id="r654", gen="random", dims=(6, 5, 4), items=8, ems=24, obs=24, split=3, norm=False, reward="dense",
                  episodes=12 if q else 80, max_steps=12, probe_cap=40, policies=pol),
             # registered default: 20-ft container, 20 items, 40 EMSs, normalised observation
-            dict(id="default", gen="random", dims=None, items=20, ems=40, obs=40, split=2, norm=True, reward="dense",
+            dict(id="default", gen="random", dims=None, items=20, ems=40, obs=40, split=2, norm=True, reward="dense", default_ctor=True,
                  episodes=4 if q else 20, max_steps=24, probe_cap=16 if q else 24, policies=pol),
             # small EMS buffer (overflow drops spaces), obs_num_ems < max_num_ems, sparse reward
             dict(id="ovf", gen="random", dims=(12, 10, 8), items=12, ems=6, obs=4, split=3, norm=True, reward="sparse",
@@ -124,6 +124,10 @@ class Adapter(EnvAdapter):
                        normalize_dimensions=cfg["norm"])
 
     def make(self, cfg):
+        if cfg.get("default_ctor"):       # the documented defaults come from the library's own no-argument constructor
+            from jumanji.environments.packing.bin_pack.env import BinPack
+
+            return BinPack()
         return self._make(cfg, cfg["reward"])
 
     def make_alt(self, cfg):
